@@ -390,6 +390,7 @@ KnownB(t) ==
   \/ (Kind(t) = "bin" /\ t[2] \in {"??", "||", "&&"} /\ KnownB(t[4]))
   \/ (Kind(t) = "seq" /\ KnownB(t[3]))
   \/ (Kind(t) = "asg" /\ t[2] = "=" /\ KnownB(t[4]))
+  \/ (Kind(t) = "asg" /\ t[2] \notin {"=", "&&=", "||=", "??="})      \* `a += b` is a number, string or bigint: never nullish
   \/ (Kind(t) = "cond" /\ KnownB(t[3]) /\ KnownB(t[4]))
 RECURSIVE Foldable(_)
 Foldable(t) ==
